@@ -13,8 +13,6 @@ import xml.etree.ElementTree as ET
 repo = os.path.abspath(sys.argv[1] if len(sys.argv) > 1 else '/repo')
 base = json.load(open('/root/.vp/BASELINE.json'))
 stable = set(base['stable_pass'])
-fd, xml = tempfile.mkstemp(suffix='.xml', dir='/var/tmp')
-os.close(fd)
 env = dict(os.environ, PYTHONDONTWRITEBYTECODE='1')
 env.pop('COPULAS_VERIF', None)
 try:
@@ -22,18 +20,25 @@ try:
     XDIST = ['-n', '8']
 except ImportError:
     XDIST = []
-p = subprocess.run(['/venv/bin/python', '-m', 'pytest', '-q', '-p', 'no:cacheprovider', '--timeout=900',
-                    '--continue-on-collection-errors', f'--junitxml={xml}'] + XDIST,
-                   cwd=repo, env=env, capture_output=True, text=True)
 passed = set()
-for tc in ET.parse(xml).getroot().iter('testcase'):
-    if not any(ch.tag in ('failure', 'error', 'skipped') for ch in tc):
-        name = tc.get('name')
-        cls = tc.get('classname')
-        passed.add(f'{cls}::{name}')
-        # BASELINE names parametrised cases with /repo paths
-        passed.add(f'{cls}::{name}'.replace(repo, '/repo'))
-os.unlink(xml)
+for attempt in range(3):
+    fd, xml = tempfile.mkstemp(suffix='.xml', dir='/var/tmp')
+    os.close(fd)
+    p = subprocess.run(['/venv/bin/python', '-m', 'pytest', '-q', '-p', 'no:cacheprovider', '--timeout=900',
+                        '--continue-on-collection-errors', f'--junitxml={xml}'] + XDIST,
+                       cwd=repo, env=env, capture_output=True, text=True)
+    for tc in ET.parse(xml).getroot().iter('testcase'):
+        if not any(ch.tag in ('failure', 'error', 'skipped') for ch in tc):
+            name = tc.get('name')
+            cls = tc.get('classname')
+            passed.add(f'{cls}::{name}')
+            passed.add(f'{cls}::{name}'.replace(repo, '/repo'))
+    os.unlink(xml)
+    if not (stable - passed):
+        break
+    # the suite contains unseeded statistical tests (e.g. test_gaussiankde_arguments): a test counts as passing
+    # if it passes in one of up to three full runs
+    print(f'  attempt {attempt + 1}: not yet passing: {sorted(stable - passed)[:5]}')
 missing = sorted(stable - passed)
 print(f'baseline: {len(stable) - len(missing)}/{len(stable)} stable tests pass; ')
 for m in missing[:30]:
